@@ -118,6 +118,42 @@ func Harness_K8_CLI() {
 	vrtReach("K8/cli/end")
 }
 
+// Harness_K8_CLIFlags: the three remaining list options that exist on both channels
+// (computed_fields, required_fields, sensitive). Each is its own parameter: the '+'-separated
+// parameter replaces the YAML list of that option and of no other option; an absent or blank
+// parameter leaves the YAML list as it was.
+func Harness_K8_CLIFlags() {
+	pComp, pReq, pSens := vrtString(), vrtString(), vrtString()
+	vrtAssume(vrtPrintable(pComp) && vrtPrintable(pReq) && vrtPrintable(pSens))
+	priorComp, priorReq, priorSens, priorTypes, priorExcl := vrtFlagMap(1), vrtFlagMap(1), vrtFlagMap(1), vrtFlagMap(1), vrtFlagMap(1)
+	c := Config{Types: priorTypes, ExcludeFields: priorExcl, ComputedFields: priorComp, RequiredFields: priorReq, SensitiveFields: priorSens}
+	c.params = map[string]string{"computed_fields": pComp, "required_fields": pReq, "sensitive": pSens}
+	err := c.readFromCLI()
+	vrtAssert("C16/K8/cli-flags-no-error", err == nil)
+	probe := vrtString()
+	list := func(label, p string, prior, got flagMap) {
+		t := strings.Trim(p, vrtWS)
+		_, in := got[probe]
+		if t == "" {
+			_, was := prior[probe]
+			vrtAssert("C16/K8/"+label+"-absent-keeps-yaml", in == was && len(got) == len(prior))
+		} else {
+			want := strings.Contains("+"+t+"+", "+"+probe+"+") && !strings.Contains(probe, "+")
+			vrtAssert("C16/K8/"+label+"-cli-wins-plus-separated", in == want)
+		}
+	}
+	list("computed", pComp, priorComp, c.ComputedFields)
+	list("required", pReq, priorReq, c.RequiredFields)
+	list("sensitive", pSens, priorSens, c.SensitiveFields)
+	// parameters of other options are absent: their lists are untouched
+	_, tIn := c.Types[probe]
+	_, tWas := priorTypes[probe]
+	_, eIn := c.ExcludeFields[probe]
+	_, eWas := priorExcl[probe]
+	vrtAssert("C16/K8/flags-params-leave-other-lists", tIn == tWas && eIn == eWas && len(c.Types) == len(priorTypes) && len(c.ExcludeFields) == len(priorExcl))
+	vrtReach("K8/cliflags/end")
+}
+
 // Harness_K8_ListOrder (C14): the flag map built from a '+'-separated list does not depend on the
 // order of the entries.
 func Harness_K8_ListOrder() {
